@@ -259,7 +259,7 @@ def set_time_forwarding(ctx: Ctx, qual: str) -> None:
                         ok = False
                         detail = f"{len(ws)} logger write(s) per log, {len(bp.conds)} extra condition(s)"
             which = key(strip_ver(e.recv)).split(".")[-1] if e.recv is not None else "?"
-            ctx.check(ok, f, e.node, f"every expiration log of the {which} is written once", "for log in <that book>._set_time(t): log.read_and_write(logger)", detail, guard="text", guard_text=path_text(p))
+            ctx.check(ok, f, e.node, f"every expiration log of the {which} is written once", "for log in <that book>._set_time(t): log.read_and_write(logger)", detail, **({"guard": "text", "guard_text": path_text(p)} if len(lps) == 0 and not any(len([l2 for l2 in loops(p) if l2.iter == e2.term]) > 1 for e2 in sets) else {}))
 
 
 @rule("C04.R5", "every clock write tells both books the new time and forwards each expiry record once", "T4 pairing / T8 siblings", floor=8)
